@@ -541,7 +541,13 @@ func main() {
 			res.Count("oracle_fail_" + r.Key)
 			res.Fail(hx.Failure{Key: "C12/" + r.Key, What: r.What, Input: h, Observed: errs})
 		}
-		if !o.Search {
+		var sts []cfgsm.Step
+		for _, fs := range h.Steps {
+			sts = append(sts, fs.Step)
+		}
+		if cfgsm.UsesAliasRe(sts) {
+			res.Count("oracle_only_alias_regex_or_contended")
+		} else if !o.Search {
 			cw.add(h, r)
 		}
 	}
